@@ -60,6 +60,13 @@ def gen_tree(rng, root, feature):
         nm = '%d-%s' % (i, rng.choice(names))
         size = rng.choice([0, 1, 5, 100, 2048, 2049, 5000])
         mk(os.path.join(d, nm), 'file', bytes((i * 31 + k * 7) % 256 for k in range(size)))
+    if feature == 'hide-exclude':
+        for d in dirs[:3]:
+            mk(os.path.join(d, 'skipme.tmp'), 'file', b'excluded-' + d.encode())
+            mk(os.path.join(d, 'secret-%d.bin' % len(d)), 'file', b'hidden from ISO9660/RR ' + d.encode())
+            mk(os.path.join(d, 'jonly-%d.doc' % len(d)), 'file', b'hidden from Joliet ' + d.encode())
+        mk('listed-out.bak', 'file', b'excluded by list')
+        mk('listed-hide.key', 'file', b'hidden by list')
     if feature == 'mangle-collision':
         d = rng.choice(dirs)
         for nm in ('ab.c', 'AB.C', 'Ab.c', 'longfilename1.txt', 'longfilename2.txt', 'longfilename3.txt', 'x.y.z', 'x_y.z'):
@@ -267,6 +274,25 @@ def names_leaf(ctx, tool):
 
 
 def one_case(rec, work, src, iso, tree, feat, opts, views):
+    excluded, hidden_iso, hidden_jol = set(), set(), set()
+    if feat == 'hide-exclude':
+        import fnmatch
+        with open(os.path.join(work, 'excl.lst'), 'w') as fp:
+            fp.write('*.bak\n')
+        with open(os.path.join(work, 'hide.lst'), 'w') as fp:
+            fp.write('*.key\n')
+        opts = list(opts) + ['-m', '*.tmp', '-exclude-list', os.path.join(work, 'excl.lst'), '-hide', 'secret-*',
+                             '-hide-list', os.path.join(work, 'hide.lst'), '-hide-joliet', 'jonly-*']
+        for k, v in tree.items():
+            base = os.path.basename(k)
+            if v[0] != 'file':
+                continue
+            if fnmatch.fnmatch(base, '*.tmp') or fnmatch.fnmatch(base, '*.bak'):
+                excluded.add(k)
+            elif fnmatch.fnmatch(base, 'secret-*') or fnmatch.fnmatch(base, '*.key'):
+                hidden_iso.add(k)
+            elif fnmatch.fnmatch(base, 'jonly-*'):
+                hidden_jol.add(k)
     rc, out = run_tool([GENISO, '-quiet', '-o', iso] + opts + [src], work)
     if rc != 0 or not os.path.exists(iso):
         last = out.strip().splitlines()[-1] if out.strip() else str(rc)
@@ -286,7 +312,11 @@ def one_case(rec, work, src, iso, tree, feat, opts, views):
                           % (view, ' '.join(opts), feat, last[:200]), {'feature': feat, 'opts': opts, 'view': view})
             continue
         got = read_tree(ex)
-        want = dict(tree)
+        want = {k: v for k, v in tree.items() if k not in excluded}
+        if view == 'rockridge':
+            want = {k: v for k, v in want.items() if k not in hidden_iso}
+        if view == 'joliet' and '-J' in opts:
+            want = {k: v for k, v in want.items() if k not in hidden_jol}
         if view == 'joliet':
             if '-r' in opts or '-R' in opts or '-udf' in opts:
                 want = {k: (v if v[0] != 'sym' else None) for k, v in want.items()}
@@ -320,7 +350,7 @@ def one_case(rec, work, src, iso, tree, feat, opts, views):
             img = fp.read()
         rd = reader.read_image(img, check=False)
         lvl = int(opts[opts.index('-iso-level') + 1]) if '-iso-level' in opts else 1
-        nfiles = len([1 for v in tree.values() if v[0] in ('file',)]) + (len([1 for v in tree.values() if v[0] == 'sym'])
+        nfiles = len([1 for k, v in tree.items() if v[0] in ('file',) and k not in excluded and k not in hidden_iso]) + (len([1 for v in tree.values() if v[0] == 'sym'])
                                                                           if ('-r' in opts or '-udf' in opts) else 0)
         cnt = 0
         st = [rd.iso_root]
@@ -359,7 +389,7 @@ def run(ctx):
     names_leaf(ctx, tool)
     rng = ctx.rng
     quick = ctx.tier == 'quick'
-    features = ['plain', 'mangle-collision', 'symlinks', 'unicode', 'duplicates', 'deep', 'longnames']
+    features = ['plain', 'mangle-collision', 'symlinks', 'unicode', 'duplicates', 'deep', 'longnames', 'hide-exclude']
     scratch = tempfile.mkdtemp(prefix='verif-c20-', dir='/var/tmp')
     import random
     from concurrent.futures import ThreadPoolExecutor
